@@ -29,3 +29,53 @@ package types
 //@ ensures err == nil <==> (len(s.ID) > 0 && s.Power > 0 && len(s.ID) <= MaxSignalIDCharacters)
 
 //@ keyfns VoteStoreKey SignalTotalPowerStoreKey ValidatorPriceListStoreKey PriceStoreKey SignalTotalPowerByPowerIndexKey
+
+// ---- C06: powers by status, weighted median ----------------------------------------------------------
+//@ spec stPower(s []ValidatorPriceInfo, st Int, lo int, hi int) Int = hi <= lo ? 0 : stPower(s, st, lo, hi-1) + (s[hi-1].SignalPriceStatus == st ? s[hi-1].Power : 0)
+//@ spec allPower(s []ValidatorPriceInfo, lo int, hi int) Int = hi <= lo ? 0 : allPower(s, lo, hi-1) + s[hi-1].Power
+//@ spec wsum(s []WeightedPrice, lo int, hi int) Int = hi <= lo ? 0 : wsum(s, lo, hi-1) + s[hi-1].Weight
+
+// The four totals: all reporting power, and the power reporting AVAILABLE / UNAVAILABLE / UNSUPPORTED.
+//@ func CalculatePricesPowers
+//@ ensures result0 == allPower(validatorPriceInfos, 0, len(validatorPriceInfos))
+//@ ensures result1 == stPower(validatorPriceInfos, SIGNAL_PRICE_STATUS_AVAILABLE, 0, len(validatorPriceInfos))
+//@ ensures result2 == stPower(validatorPriceInfos, SIGNAL_PRICE_STATUS_UNAVAILABLE, 0, len(validatorPriceInfos))
+//@ ensures result3 == stPower(validatorPriceInfos, SIGNAL_PRICE_STATUS_UNSUPPORTED, 0, len(validatorPriceInfos))
+//@ ensures result1 != 0 ==> (exists k :: 0 <= k && k < len(validatorPriceInfos) && validatorPriceInfos[k].SignalPriceStatus == SIGNAL_PRICE_STATUS_AVAILABLE)
+//@ loop 0: invariant availablePower != 0 ==> (exists k :: 0 <= k && k < #i && validatorPriceInfos[k].SignalPriceStatus == SIGNAL_PRICE_STATUS_AVAILABLE)
+//@ loop 0: invariant totalPower == allPower(validatorPriceInfos, 0, #i)
+//@ loop 0: invariant availablePower == stPower(validatorPriceInfos, SIGNAL_PRICE_STATUS_AVAILABLE, 0, #i)
+//@ loop 0: invariant unavailablePower == stPower(validatorPriceInfos, SIGNAL_PRICE_STATUS_UNAVAILABLE, 0, #i)
+//@ loop 0: invariant unsupportedPower == stPower(validatorPriceInfos, SIGNAL_PRICE_STATUS_UNSUPPORTED, 0, #i)
+
+// The weighted median is the price of one of the entries; with non-negative weights it exists exactly
+// when the list is non-empty.
+//@ func MedianWeightedPrice
+//@ ensures err == nil ==> (exists k :: 0 <= k && k < len(weightedPrices) && result == weightedPrices[k].Price)
+//@ ensures (forall i :: 0 <= i && i < len(weightedPrices) ==> weightedPrices[i].Weight >= 0) ==> (err == nil <==> len(weightedPrices) > 0)
+//@ loop 0: invariant totalWeight == wsum(weightedPrices, 0, #i)
+//@ loop 0: invariant (forall i :: 0 <= i && i < len(weightedPrices) ==> weightedPrices[i].Weight >= 0) ==> totalWeight >= 0
+//@ loop 1: invariant cumulativeWeight == wsum(weightedPrices, 0, #i)
+//@ loop 1: invariant #i > 0 ==> 2 * cumulativeWeight < totalWeight
+
+//@ spec secOK(idx Int, cur Int, tot Int) Bool = (idx == 0 ==> cur <= tot * 1) && (idx == 1 ==> cur <= tot * 3) && (idx == 2 ==> cur <= tot * 7) && (idx == 3 ==> cur <= tot * 15) && (idx == 4 ==> cur <= tot * 32)
+// C06: only AVAILABLE entries take part: the section capacities are fractions of the total AVAILABLE power,
+// and the published median is the price of one of the AVAILABLE entries (hence between their min and max).
+//@ func MedianValidatorPriceInfos
+//@ ensures err == nil ==> (exists k :: 0 <= k && k < len(validatorPriceInfos) && validatorPriceInfos[k].SignalPriceStatus == SIGNAL_PRICE_STATUS_AVAILABLE && result == validatorPriceInfos[k].Price)
+//@ loop 0: invariant totalPower == stPower(validatorPriceInfos, SIGNAL_PRICE_STATUS_AVAILABLE, 0, #i)
+//@ loop 0: invariant forall j :: 0 <= j && j < len(validPrices) ==> (exists k :: 0 <= k && k < #i && validatorPriceInfos[k].SignalPriceStatus == SIGNAL_PRICE_STATUS_AVAILABLE && validPrices[j] == validatorPriceInfos[k])
+//@ loop 1: invariant 0 <= sectionIndex && len(weightedPrices) == #i
+//@ loop 1: invariant forall j :: 0 <= j && j < #i ==> weightedPrices[j].Price == validPrices[j].Price
+//@ loop 2: invariant 0 <= sectionIndex
+// totality: with non-negative powers the median exists exactly when some entry is AVAILABLE (the weights
+// handed to MedianWeightedPrice are non-negative because no section is ever over-filled)
+//@ ensures (forall i :: 0 <= i && i < len(validatorPriceInfos) ==> validatorPriceInfos[i].Power >= 0)
+//@           ==> (err == nil <==> (exists k :: 0 <= k && k < len(validatorPriceInfos) && validatorPriceInfos[k].SignalPriceStatus == SIGNAL_PRICE_STATUS_AVAILABLE))
+//@ loop 0: invariant (forall i :: 0 <= i && i < len(validatorPriceInfos) ==> validatorPriceInfos[i].Power >= 0) ==> totalPower >= 0
+//@ loop 0: invariant (len(validPrices) > 0) <==> (exists k :: 0 <= k && k < #i && validatorPriceInfos[k].SignalPriceStatus == SIGNAL_PRICE_STATUS_AVAILABLE)
+//@ loop 1: invariant sectionIndex <= 5
+//@ loop 1: invariant (forall i :: 0 <= i && i < len(validatorPriceInfos) ==> validatorPriceInfos[i].Power >= 0) ==> (currentPower >= 0 && secOK(sectionIndex, currentPower, totalPower))
+//@ loop 1: invariant (forall i :: 0 <= i && i < len(validatorPriceInfos) ==> validatorPriceInfos[i].Power >= 0) ==> (forall j :: 0 <= j && j < #i ==> weightedPrices[j].Weight >= 0)
+//@ loop 2: invariant sectionIndex <= 5
+//@ loop 2: invariant (forall i :: 0 <= i && i < len(validatorPriceInfos) ==> validatorPriceInfos[i].Power >= 0) ==> (currentPower >= 0 && leftPower >= 0 && totalWeight >= 0 && secOK(sectionIndex, currentPower, totalPower))
